@@ -84,6 +84,15 @@ impl Prop for C15 {
                 }
             })
         }));
+        v.push(Scope::new("repeated-rows", "rows over {\",a,|,space} up to length 5 with a quoted segment, the same row repeated 2 and 3 times", |f| {
+            enumr::strings_upto(&['"', 'a', '|', ' '], 5, &mut |s| {
+                if s.iter().filter(|c| **c == '"').count() >= 2 {
+                    let row: String = s.iter().collect();
+                    f(Case::s(format!("{}\n{}", row, row)));
+                    f(Case::s(format!("{}\n{}\n{}", row, row, row)));
+                }
+            })
+        }));
         let nb = if tier == Tier::Quick { 5 } else { 6 };
         v.push(Scope::new("rows-with-backslash", "rows over {\",\\,a,-,space} above a row of bars; only rows whose backslashes all lie outside the quoted regions and before no dangling quote are kept (the quantifier excludes a backslash inside quoted text)", move |f| {
             enumr::strings_upto(&['"', '\\', 'a', '-', ' '], nb, &mut |s| {
